@@ -53,7 +53,7 @@ class Program:
         decoy = dict(self.cfg, mc={'on': False, 'port': '', 'claim': '', 'grant': ['x'], 'release': ''},
                      prov={'sts': shell.ALL, 'mts': shell.NONE} if self.cfg['prov']['sts']['w'] == 'NONE' else {'sts': shell.NONE, 'mts': shell.ALL},
                      req={'sts': shell.NONE, 'mts': shell.ALL} if self.cfg['req']['mts']['w'] in ('NONE', 'SET') else {'sts': shell.ALL, 'mts': shell.NONE},
-                     prefix=['Decoy'])
+                     prefix=['Decoy'], origin='import' if self.cfg.get('origin', 'create') == 'create' else 'create')
         _quiet(shell.staged_build, model.cfg_to_desc(decoy), fct, None, builder)
         stg = _quiet(shell.staged_build, model.cfg_to_desc(self.cfg), fct, None, builder)
         if not stg.ok:
